@@ -158,7 +158,11 @@ def _build(case, J, tau):
             for meth, kw in _profile_steps(case['profile'], i):
                 getattr(m.compositionProfile, meth)(e, **kw)
         _temperature(m, case['temp'], tau)
-        cvals = CVALS
+        cvals = dict(CVALS)
+        if case.get('cv') == 'zero':       # a boundary value at the very end of the composition range (a sink / a pure reservoir)
+            cvals[(0, 'L')] = 0.0
+        elif case.get('cv') == 'one':
+            cvals[(0, 'L')] = 1.0
     else:
         kind, backend, els, phases, T, half, lin = REAL_SETUPS[env]
         cls = SinglePhaseModel if kind == 'single' else HomogenizationModel
@@ -249,7 +253,7 @@ def _fsum(a):
 
 
 def _describe(case):
-    keys = ['env', 'model', 'els', 'N', 'profile', 'bc', 'it', 'calls', 'temp', 'rule', 'bcapi', 'nsteps']
+    keys = ['env', 'model', 'els', 'N', 'profile', 'bc', 'it', 'calls', 'temp', 'rule', 'bcapi', 'nsteps', 'cv']
     return ' '.join('%s=%s' % (k, case[k]) for k in keys if k in case)
 
 
@@ -337,6 +341,9 @@ def _run_cfg(case):
         # bounds
         if not (np.all(px >= xmin) and np.all(px <= 1 - xmin)) or not np.all(np.isfinite(px)):
             bad('step/bounds', '%s: min %r max %r' % (where, float(np.min(px)), float(np.max(px))))
+        # the state the run starts from (after setup) obeys the bounds as well
+        if k == 0 and (not (np.all(pre >= xmin) and np.all(pre <= 1 - xmin)) or not np.all(np.isfinite(pre))):
+            bad('initial/bounds', '%s: min %r max %r' % (where, float(np.min(pre)), float(np.max(pre))))
         # per component
         for e in range(nel - 1):
             lab_l, lab_r = bcs[e]
@@ -628,6 +635,19 @@ def run(ctx):
                         if model == 'homog':
                             c['rule'] = 'wiener upper'
                         acases.append(c)
+    # boundary values at the ends of the composition range: 0 (all four model/element combinations) and 1 (binary single-phase)
+    for model in ['single', 'homog']:
+        for els in ['bin', 'tern']:
+            for cv in ['zero'] + (['one'] if (model, els) == ('single', 'bin') else []):
+                for first in (['c', 'f0'], ['c', 'c'], ['c', '+J']):
+                    bc = [first] if els == 'bin' else [first, ['f0', 'f0']]
+                    for it in its:
+                        for nc in [1, 2]:
+                            c = {'model': model, 'els': els, 'N': 5, 'profile': 'linear', 'bc': bc, 'it': it, 'calls': nc,
+                                 'temp': 'iso', 'nsteps': nsteps, 'cv': cv}
+                            if model == 'homog':
+                                c['rule'] = 'wiener upper'
+                            acases.append(c)
     ctx.product_run('bc-api', 'checks.c04:run_cfg', acases)
 
     # --- stage 4: instrumentation is transparent ----------------------------------------------------------------
